@@ -1,10 +1,15 @@
 ----------------------------- MODULE ShelfGen -----------------------------
-(* E1 + E2 for C15: TLC enumerates every valid change set D of at most MaxEdits atoms and every selection S of the
+(* E1 + E2 for C15: TLC enumerates every valid change set D of at most MaxEdits atoms - and, because the kinds of change
+   interact within ONE file (a kept rename with a shelved hunk, a kept hunk with a shelved one ...), every valid change
+   set of at most MaxSame atoms that all concern the same file - and every selection S of the
    offered units (hunk-granular), checks the laws and the algebra of the model on every case (one initial state per
    case), and exports the case table with the expected projections. *)
 EXTENDS Shelf, Json, IOUtils, FiniteSetsExt
-CONSTANTS MaxEdits
+CONSTANTS MaxEdits, MaxSame
+OfFile(f) == {x \in AllAtoms : x.f = f}
 Deltas == {D \in UNION {kSubset(k, AllAtoms) : k \in 1..MaxEdits} : Valid(D)}
+          \cup {D \in UNION {UNION {kSubset(k, OfFile(f)) : k \in {j \in (MaxEdits + 1)..MaxSame : j <= Cardinality(OfFile(f))}}
+                            : f \in FileNames} : Valid(D)}
 Case(D, S) == [D |-> SetToSeq(D), S |-> SetToSeq(S)]
 CaseSet == UNION {{Case(D, S) : S \in SUBSET Units(D)} : D \in Deltas}
 VARIABLE c
@@ -26,6 +31,10 @@ LawsHoldOnSpec ==
 WitnessOneHunkOfTwo == ~(At("a", "modA") \in S_(c) /\ At("a", "modB") \in D_(c) /\ At("a", "modB") \notin S_(c))
 WitnessRenameKeptEditShelved == ~(At("a", "ren") \in Kept(D_(c), S_(c)) /\ At("a", "modA") \in Shelved(D_(c), S_(c)))
 WitnessExecStays == ~(At("a", "exec") \in D_(c) /\ S_(c) = Units(D_(c)) /\ S_(c) # {})
+\* a file keeps its new path and one edited region while the other region is shelved: the text merge of the unshelve then
+\* runs on a file whose path differs between the tree and the shelf
+WitnessMovedFileHunk == ~(At("a", "ren") \in Kept(D_(c), S_(c)) /\ At("a", "modB") \in Kept(D_(c), S_(c))
+                          /\ At("a", "modA") \in Shelved(D_(c), S_(c)))
 WitnessManyFiles == ~(Cardinality({x.f : x \in Shelved(D_(c), S_(c))}) = (IF MaxEdits >= 3 THEN 3 ELSE 2))
 Export == JsonSerialize(IOEnv.VF_OUT, SetToSeq({[c |-> x, spec |-> SpecOut(D_(x), S_(x))] : x \in CaseSet}))
 ASSUME IF "VF_OUT" \in DOMAIN IOEnv THEN Export ELSE TRUE
